@@ -321,6 +321,18 @@ func c11Env(h *c11Host) *env.Env {
 	e.Define("ctr", new(c11Counter))
 	e.Define("dict", &c11Dict{})
 	e.Define("vstk", c11Stack{4, 5})
+	// a slice passed for a parameter of another slice type with the same element type is converted as Go converts it:
+	// same backing array, nil stays nil
+	e.Define("sortdesc", func(x c11Stack) int64 {
+		h.rec("sortdesc")
+		sort.Slice(x, func(i, j int) bool { return x[i] > x[j] })
+		return int64(len(x))
+	})
+	e.Define("stknil", func(x c11Stack) bool { h.rec("stknil"); return x == nil })
+	e.Define("stkcap", func(x c11Stack) int64 { h.rec("stkcap"); return int64(cap(x)) })
+	e.Define("setfirst", func(x []int64) { h.rec("setfirst"); x[0] = 99 })
+	e.Define("nilints", []int64(nil))
+	e.Define("ints3", []int64{1, 3, 2})
 	e.Define("num8", int8(-5))
 	e.Define("numu", uint16(500))
 	e.Define("f32", float32(0.5))
@@ -530,6 +542,12 @@ func c11Cases(rnd *Rand) []c11Case {
 	add("dict.Put(\"a\", 1); dict.Put(\"b\", 2)", " => "+p(int64(2)), "pointer-receiver method of a named map type")
 	add("dict.Put(\"a\", 1); [dict.Has(\"a\"), dict.Has(\"z\")]", " => "+p([]interface{}{true, false}), "value-receiver method of a named map type through a pointer")
 	add("vstk.Top()", " => "+p(int64(5)), "value-receiver method of a named slice value")
+	add("sortdesc(ints3); ints3", "sortdesc() => "+p([]int64{3, 2, 1}), "a []int64 passed for a named slice type shares its backing array with what the Go function gets: an in-place sort is seen by the caller")
+	add("a = make([]int64, 3); a[0] = 1; a[1] = 3; a[2] = 2; sortdesc(a); a", "sortdesc() => "+p([]int64{3, 2, 1}), "... also for a slice made by the script")
+	add("b = ints3[0:2]; sortdesc(b); ints3", "sortdesc() => "+p([]int64{3, 1, 2}), "... and for a view of it")
+	add("stknil(nilints)", "stknil() => "+p(true), "a nil []int64 arrives as a nil value of the named slice type")
+	add("stkcap(ints3[0:1])", "stkcap() => "+p(int64(3)), "the capacity is kept")
+	add("setfirst(vstk); vstk.Top() + vstk[0]", "setfirst() => "+p(int64(104)), "a value of a named slice type passed for []int64 shares its backing array")
 	add("f = stk.Push; f(1, 2); f(3)", " => "+p(int64(3)), "method value of a pointer-receiver method of a named slice type")
 	// a value that a Go function hands out as a non-empty interface type is the value it holds, wherever it is used next
 	add("wanterrptr(mkerr(3))", "mkerr("+p(int64(3))+"); wanterrptr() => "+p(int64(3)), "an error result passed straight on to a parameter of its concrete pointer type")
